@@ -270,9 +270,17 @@ class CaseInsensitiveDict(OrderedDict):
         key = key.lower() if isinstance(key, str) else key
         return super().__getitem__(key)
 
+    def __delitem__(self, key):
+        key = key.lower() if isinstance(key, str) else key
+        super().__delitem__(key)
+
     def get(self, key, default=None):
         key = key.lower() if isinstance(key, str) else key
         return super().get(key, default)
+
+    def pop(self, key, *args, **kwargs):
+        key = key.lower() if isinstance(key, str) else key
+        return super().pop(key, *args, **kwargs)
 
     def __contains__(self, key):
         key = key.lower() if isinstance(key, str) else key
